@@ -1,4 +1,5 @@
 import Ampy.Lemmas.Msg
+import Ampy.Lemmas.EndToEnd
 /-!
 # C02 — lowest layer and ceiling are never suppressed; NCD / NSC mean what they say
 
@@ -34,5 +35,57 @@ theorem C02_NSC_iff (msa : Option Rat) (flag : Bool) (t : Table) (h : TableOK t)
     metarMsg msa flag t.length t = "NSC" ↔
       cloudBelow msa t = [] ∧ ((∃ r ∈ t, r.okta ≥ 1 ∧ belowMsa msa r.base = false) ∨ flag = true) :=
   nsc_iff msa flag t h
+
+/-! ### End to end, about what `ampycloud.run` returns (`Accepted` = the property's quantifier) -/
+
+/-- The lowest layer of 1 okta or more below the MSA is the first reported row, and the ceiling is reported,
+on every level of every chunk `run` returns. -/
+theorem C02_run_lowest_and_ceiling {α} [DecidableEq α] (K : Kern) (P : PPrms α) (checked : List (Hit α))
+    (hA : Accepted K P checked) (c : Chunk α) (h : run K P checked = .ok c) (w : Which) :
+    ∃ t, tableOf c w = some t ∧
+      (cloudBelow P.msa t ≠ [] → (reported P.msa t).head? = (cloudBelow P.msa t).head?) ∧
+      (∀ r, (t.filter fun r => decide (r.okta ≥ 5) && belowMsa P.msa r.base).head? = some r → r ∈ reported P.msa t) := by
+  obtain ⟨t, ht, hok, _⟩ := run_msg K P checked hA c h w
+  exact ⟨t, ht, C02_lowest_first P.msa t hok, C02_ceiling P.msa t hok⟩
+
+/-- `NCD` exactly when no slice/group/layer reaches 1 okta *and* the input holds at most MAX_HITS_OKTA0 hits
+above MSA + buffer (or no MSA is set); `NSC` exactly when nothing is reportable below the MSA although cloud
+exists: a row of 1 okta or more at/above the MSA, or more than MAX_HITS_OKTA0 input hits above MSA + buffer. -/
+theorem C02_run_NCD_NSC {α} [DecidableEq α] (K : Kern) (P : PPrms α) (checked : List (Hit α))
+    (hA : Accepted K P checked) (c : Chunk α) (h : run K P checked = .ok c) (w : Which) :
+    ∃ t, tableOf c w = some t ∧
+      (metarMsgOp P c w = .ok "NCD" ↔ (∀ r ∈ t, r.okta ≤ 0) ∧
+        ¬ ∃ m, P.msa = some m ∧ (((checked.filter (aboveLim (m + P.msaBuf))).length : Nat) : Rat) > P.t0) ∧
+      (metarMsgOp P c w = .ok "NSC" ↔ cloudBelow P.msa t = [] ∧
+        ((∃ r ∈ t, r.okta ≥ 1 ∧ belowMsa P.msa r.base = false) ∨
+         ∃ m, P.msa = some m ∧ (((checked.filter (aboveLim (m + P.msaBuf))).length : Nat) : Rat) > P.t0)) := by
+  obtain ⟨t, ht, hok, hm⟩ := run_msg K P checked hA c h w
+  have hf := run_flag_iff K P checked c h
+  refine ⟨t, ht, ?_, ?_⟩
+  · rw [hm]
+    constructor
+    · intro e
+      have := (C02_NCD_iff P.msa c.flag t hok).mp (Except.ok.inj e)
+      exact ⟨this.1, fun hx => by rw [hf.mpr hx] at this; exact absurd this.2 (by simp)⟩
+    · intro ⟨h1, h2⟩
+      have hfl : c.flag = false := by
+        cases hc : c.flag with
+        | false => rfl
+        | true => exact absurd (hf.mp hc) h2
+      rw [(C02_NCD_iff P.msa c.flag t hok).mpr ⟨h1, hfl⟩]
+  · rw [hm]
+    constructor
+    · intro e
+      have := (C02_NSC_iff P.msa c.flag t hok).mp (Except.ok.inj e)
+      refine ⟨this.1, ?_⟩
+      rcases this.2 with h1 | h1
+      · exact Or.inl h1
+      · exact Or.inr (hf.mp h1)
+    · intro ⟨h1, h2⟩
+      have : (∃ r ∈ t, r.okta ≥ 1 ∧ belowMsa P.msa r.base = false) ∨ c.flag = true := by
+        rcases h2 with h2 | h2
+        · exact Or.inl h2
+        · exact Or.inr (hf.mpr h2)
+      rw [(C02_NSC_iff P.msa c.flag t hok).mpr ⟨h1, this⟩]
 
 end Ampy
